@@ -75,7 +75,7 @@ void __tsan_on_report(void* rep) {
 static volatile int tsan_reports_in_case;
 #endif
 
-static const uint64_t DIMS[] = {4, 16, 64, 2048, 8, 256};
+static const uint64_t DIMS[] = {4, 16, 64, 2048, 8, 256, 8192, 32, 16384, 1024};  // both sides of every size threshold (m = 4, 8, 16, 2048/4096)
 
 static void conc_case(int warm, unsigned dimsel, int T, int rounds, unsigned rep) {
   char key[96];
